@@ -478,6 +478,8 @@ def handler(tree, name):
 #     _tx_length, emit send_bundle_started).  Conditions after the start block may not
 #     mention the queue.
 #   _idle_timeout / terminate: if/else over self.close(), self.send_sess_term(<reason>, <bool>), return.
+#   _add_queue_item: leading `if <cond>: raise RuntimeError(...)` guards -> gen_add_queue_refused; the rest of the
+#     body must be exactly the known five statements, and send_bundle_data must queue through it.
 #   recv_raw: the test of its single while loop; get_app_socket must return the TLS socket if
 #     set, else the plain socket, and Connection.close must clear both.
 
@@ -702,6 +704,27 @@ def control(repo_src, tree):
         raise Shape('recv_message: SESS_TERM handler call changed')
     parts.append('Definition gen_term_reject (in_sess in_term : bool) : bool :=\n  %s.\n' % ctl_cond(first.test, names))
     parts.append('Definition gen_term_reply (in_sess in_term : bool) : bool :=\n  %s.\n' % ctl_cond(second.test, names))
+    # _add_queue_item (send_bundle_data / send_bundle_file / send_bundle_fileobj): the refusal guards
+    func = find_func(tree, 'ContactHandler', '_add_queue_item')
+    body = [stmt for stmt in func.body if not is_doc(stmt) and not is_logger(stmt)]
+    names = {'self._in_sess': 'in_sess', 'self._in_term': 'in_term'}
+    guards = []
+    while body and isinstance(body[0], ast.If) and not body[0].orelse and len(body[0].body) == 1 \
+            and isinstance(body[0].body[0], ast.Raise) \
+            and ast.unparse(body[0].body[0].exc).startswith('RuntimeError('):
+        guards.append(ctl_cond(body[0].test, names))
+        body = body[1:]
+    texts = [ast.unparse(stmt) for stmt in body]
+    expect = ['if item.transfer_id is None:\n    item.transfer_id = self.next_id()',
+              'self._tx_pend_start.append(item)', 'self._tx_map[item.transfer_id] = item',
+              'self._process_queue_trigger()', 'return item.transfer_id']
+    if texts != expect:
+        raise Shape('_add_queue_item body changed: %s' % texts)
+    data = find_func(tree, 'ContactHandler', 'send_bundle_data')
+    if 'return str(self._add_queue_item(item))' not in stmt_texts(data.body):
+        raise Shape('send_bundle_data no longer queues through _add_queue_item')
+    parts.append('Definition gen_add_queue_refused (in_sess in_term : bool) : bool :=\n  %s.\n'
+                 % (' || '.join(guards) if guards else 'false'))
     sock = find_func(tree, 'Connection', 'get_app_socket')
     if stmt_texts(sock.body) != ['if self.__s_tls:\n    return self.__s_tls', 'return self.__s_notls']:
         raise Shape('get_app_socket body changed')
